@@ -172,6 +172,8 @@ pub fn gen_value(rng: &mut Rng, cfg: &GenCfg, depth: usize) -> Val {
                 "2022-01-01T13:00:00+01:00",
                 "1999-12-31T23:59:59-05:00",
                 "2024-02-29T00:00:00.500+00:00",
+                "2001-09-09T01:46:40.123456+02:00",
+                "2001-09-09T01:46:40.123456789+00:00",
             ])
             .to_string(),
         ),
@@ -424,6 +426,31 @@ impl<'a> Gen<'a> {
         }
     }
 
+    /// [A/ts_h, A/ts_h+1, B/ts_h+2]: known selections, begin-aligned, in textual order within A, A before B
+    fn cross_resource_run(&mut self, m: &Model) -> Option<Vec<Sel>> {
+        let live: Vec<usize> = m.resources.iter().enumerate().filter(|(_, r)| r.live).map(|(i, _)| i).collect();
+        for &a in live.iter() {
+            for &b in live.iter() {
+                if m.resources[a].handle >= m.resources[b].handle {
+                    continue;
+                }
+                let sa = &m.resources[a].sels;
+                let sb = &m.resources[b].sels;
+                for h in 0..sa.len().saturating_sub(1) {
+                    if sa[h] < sa[h + 1] && h + 2 < sb.len() {
+                        let mk = |r: usize, (b, e): (usize, usize)| Sel::Text {
+                            r: Ref { idx: r, by: By::Id },
+                            b: Cur::B(b),
+                            e: Cur::B(e),
+                        };
+                        return Some(vec![mk(a, sa[h]), mk(a, sa[h + 1]), mk(b, sb[h + 2])]);
+                    }
+                }
+            }
+        }
+        None
+    }
+
     pub fn selector(&mut self, m: &Model, invalid: bool) -> Sel {
         let w = &self.cfg.wsel;
         let simple_w: usize = w[0..7].iter().sum();
@@ -439,8 +466,22 @@ impl<'a> Gen<'a> {
         for i in 0..n {
             let bad = bad_at == Some(i);
             if bad && self.rng.chance(1, 3) {
-                // nested complex selector: must be refused
-                subs.push(Sel::Multi(vec![self.simple_sel(m, false)]));
+                // nested complex selector (with fresh spans inside): must be refused, nothing may stay behind
+                let inner = vec![self.simple_sel(m, false), self.simple_sel(m, false)];
+                subs.push(match self.rng.below(3) {
+                    0 => Sel::Multi(inner),
+                    1 => Sel::Composite(inner),
+                    _ => Sel::Directional(inner),
+                });
+                if self.rng.chance(1, 2) {
+                    // two nested siblings
+                    let inner2 = vec![self.simple_sel(m, false)];
+                    subs.push(match self.rng.below(3) {
+                        0 => Sel::Multi(inner2),
+                        1 => Sel::Composite(inner2),
+                        _ => Sel::Directional(inner2),
+                    });
+                }
                 continue;
             }
             match style {
@@ -480,6 +521,17 @@ impl<'a> Gen<'a> {
                     } else {
                         subs.push(self.simple_sel(m, bad));
                     }
+                }
+                2 => {
+                    // a run of known selections with consecutive handles that crosses into another resource
+                    // (range compression must not merge across resources)
+                    if i == 0 && !bad {
+                        if let Some(run) = self.cross_resource_run(m) {
+                            subs = run;
+                            break;
+                        }
+                    }
+                    subs.push(self.simple_sel(m, bad));
                 }
                 _ => subs.push(self.simple_sel(m, bad)),
             }
@@ -538,7 +590,11 @@ impl<'a> Gen<'a> {
         let invalid = self.rng.below(100) < self.cfg.pct_invalid;
         // where the mistake sits: target, data (position p), or duplicate id
         let stage = if invalid { self.rng.below(3) } else { 99 };
-        let target = self.selector(m, stage == 0);
+        let target = if stage == 0 && self.rng.chance(1, 8) {
+            Sel::Missing
+        } else {
+            self.selector(m, stage == 0)
+        };
         let ndata = self.rng.weighted(&[2, 5, 3, 1]);
         let bad_data_at = if stage == 1 { Some(self.rng.below(ndata.max(1))) } else { None };
         let mut data = Vec::new();
